@@ -609,6 +609,27 @@ fn fault_tok(r: &mut Rng) -> String {
 
 fn session(minh: i32, seg: &str, toks: &[String]) -> String { format!("c12.session {} {} {}", minh, seg, toks.join(",")) }
 
+/// Conforming sessions whose payloads arrive in many paced fragments (used by C11's check too: the REAL receive loop of
+/// connect_internal, not the harness copy, reassembles them): 1-4 messages, at least one with a payload of several hundred
+/// bytes, written frame by frame in k-byte segments (k in 7..250) with 1-2 ms between segments, then a half-close.
+pub fn gen_fragmented(rng: &mut Rng, out: &mut Vec<String>, n: usize) {
+    for i in 0..n {
+        let mut t: Vec<String> = vec![format!("f:{}", cp(&good_version(rng))), "f:verack:-".to_string()];
+        let big = match i % 3 {
+            0 => { let k = 8 + rng.below(24); Message::Inv(inv(rng, k)) }
+            1 => { let k = 300 + rng.below(900) as usize; Message::Tx(tx(rng, k)) }
+            _ => { let k = 3 + rng.below(8); Message::Headers(Headers { headers: (0..k).map(|_| block_header(rng)).collect() }) }
+        };
+        let before = rng.below(2);
+        for _ in 0..before { t.push(gen_frame_tok(rng)); }
+        t.push(format!("f:{}", cp(&big)));
+        for _ in 0..rng.below(3) { t.push(gen_frame_tok(rng)); }
+        t.push("close".into());
+        let k = *rng.pick(&[7usize, 23, 37, 64, 100, 250]);
+        out.push(session(0, &format!("{}:{}:s", k, 1 + rng.below(2)), &t));
+    }
+}
+
 pub fn gen(tier: &str, rng: &mut Rng, out: &mut Vec<String>) {
     // steered sessions: the interleaving model replayed through the H3 sync points (c12conc.rs)
     if chain_gang::util::verif_hooks::PEER_HOOKS { conc::gen_conc(tier, &mut rng.fork(), out); }
